@@ -189,3 +189,51 @@ Definition NoSelfDependence (st : state) (m0 : model) (urank crank : owner -> st
      crank (Some (mk_key url)) (cname ic) < crank o n) /\
   (forall o cm c k, content st m0 o = Some cm -> In c (all_comps cm) -> In k (ckids c) ->
      crank o (cname k) <= crank o (cname c)).
+
+(* ------------------------------------------------------------------------------------------ resolved, structurally *)
+
+Section Resolved.
+  Variable st : state.
+
+  (* [TU o cm u]: the links of [st] lead from the units [u] of model [cm] (owned by [o]) down to local units,
+     through every import on the way: what Units::isResolved() looks for *)
+  Inductive TU : owner -> model -> units -> Prop :=
+  | TU_local : forall o cm n refs,
+      (forall r cu, In r refs -> is_std r = false -> find_units (m_units cm) r = Some cu -> TU o cm cu) ->
+      TU o cm (ULocal n refs)
+  | TU_imp : forall o cm n sid url ref sm iu,
+      linked_model st o sid url = Some sm ->
+      find_units (m_units sm) ref = Some iu ->
+      TU (Some (mk_key url)) sm iu ->
+      TU o cm (UImp n sid url ref).
+
+  (* the units used by the variables of a component and of all its descendants: leaves, or resolved imports *)
+  Definition UsedOK (o : owner) (cm : model) (c : comp) : Prop :=
+    forall c' un mu, In c' (subcomps c) -> In un (cused c') -> is_std un = false ->
+                     find_units (m_units cm) un = Some mu ->
+                     (is_local mu /\ only_std mu) \/ (~ is_local mu /\ TU o cm mu).
+
+  (* [TC o cm c]: what Component::isResolved() looks for *)
+  Inductive TC : owner -> model -> comp -> Prop :=
+  | TC_imp : forall o cm n sid url ref used kids sm ic,
+      linked_model st o sid url = Some sm ->
+      find_comp (m_comps sm) ref = Some ic ->
+      TC (Some (mk_key url)) sm ic ->
+      TC o cm (Comp n (Some (sid, url, ref)) used kids)
+  | TC_local : forall o cm n used kids,
+      UsedOK o cm (Comp n None used kids) ->
+      (forall k, In k kids -> TC o cm k) ->
+      TC o cm (Comp n None used kids).
+End Resolved.
+
+(* the origin model's own local entities, which hasUnresolvedImports() also walks: a local units referenced by a
+   local units, and a local units used by a variable (anywhere in the component trees), reference standard units only *)
+Definition OriginShallow (m0 : model) : Prop :=
+  (forall u r cu, In u (m_units m0) -> is_local u -> In r (refs_of u) -> is_std r = false ->
+                  find_units (m_units m0) r = Some cu -> is_local cu -> only_std cu) /\
+  (forall c un su, In c (all_comps m0) -> In un (cused c) -> is_std un = false ->
+                   find_units (m_units m0) un = Some su -> is_local su -> only_std su).
+
+(* no two different files hold models that Model::equals each other (cf. NoTwin) *)
+Definition NoTwinFiles (fs : fsys) : Prop :=
+  forall k k' sm sm', fs_model fs k = Some sm -> fs_model fs k' = Some sm' -> k <> k' -> model_equals sm sm' = false.
